@@ -420,6 +420,21 @@ def _driver(spec):
                 emit(ev="report", rc=r["rc"], exc=r["exc"])
                 sys.stdout.write("@@REPORT " + json.dumps(r) + "\n")
                 sys.stdout.flush()
+            elif argv.get("action") == "whatif":
+                # a what-if script: loads the model and changes it in memory only (the model file is not touched)
+                from osaca.semantics import MachineModel
+
+                mm = MachineModel(arch=argv["arch"])
+                n = 0
+                for forms in mm["instruction_forms_dict"].values():
+                    for form in forms:
+                        if getattr(form, "latency", None) is not None:
+                            form.latency = float(form.latency) + 7.0
+                            n += 1
+                for form in mm["instruction_forms"]:
+                    if isinstance(form, dict) and form.get("latency") is not None:
+                        form["latency"] = float(form["latency"]) + 7.0
+                emit(ev="action", what="whatif", changed=n)
             elif argv.get("action") == "sleep":
                 # time passes in a long-lived process between two analyses
                 time.sleep(float(argv["s"]))
